@@ -154,7 +154,7 @@ def demoSchedule : List Label :=
    .shutRetry, .shutQueue, .offer [9], .giveUp 0 true, .read 0, .consume 0 [] (some [4, 5, 9]), .exit 0, .join, .shutBatcher, .shutSpawn,
    .expStart 1, .expEnd 1 .ok .drop, .timerExit, .shutWait]
 
-def demoFinal : Option State := runFrom (init ⟨false, true, true⟩ 1 1 true) demoSchedule
+def demoFinal : Option State := runFrom (init { persistent := false, batching := true, retry := true } 1 1 true) demoSchedule
 
 example : (demoFinal.map (·.phase)) = some 5 := by decide
 example : (demoFinal.map (·.early)) = some [1, 2, 3, 4, 5] := by decide
@@ -166,7 +166,7 @@ def demoPersistent : List Label :=
   [.offer [1], .offer [2], .offer [3], .read 0, .sendSync 0, .expStart 0, .expEnd 0 .trans .again, .read 1, .sendSync 1, .expStart 1,
    .shutRetry, .giveUp 0 true, .shutQueue, .expEnd 1 .ok .drop, .exit 0, .exit 1, .join, .shutBatcher, .shutWait]
 
-def demoPFinal : Option State := runFrom (init ⟨true, false, true⟩ 2 0 false) demoPersistent
+def demoPFinal : Option State := runFrom (init { persistent := true, batching := false, retry := true } 2 0 false) demoPersistent
 
 example : (demoPFinal.map (fun s => (s.phase, s.stored, s.queue.map (·.1)))) = some (5, [1, 3], [[3]]) := by decide
 
